@@ -20,3 +20,21 @@ func H_C16_sem(p int, spare int) {
 	vAssert("caller-bytes-untouched", string(buf[:p]) == snap)
 	vReach("tag", f == FormatTag)
 }
+
+// the caller's buffer is the result of an earlier call: the earlier text stays what it was and the new text follows
+//
+//verif:harness C16 quick
+func H_C16_semChain() {
+	v1 := Ver{Major: vU64("major1"), Minor: vU64("minor1"), Patch: vU64("patch1"), PreRelease: vStr("pre1", 2), Build: vStr("build1", 1)}
+	v2 := Ver{Major: vU64("major2"), Minor: vU64("minor2"), Patch: vU64("patch2"), PreRelease: vStr("pre2", 1), Build: vStr("build2", 1)}
+	vAssume(v1.Major < 100 && v1.Minor < 10 && v1.Patch < 100 && v2.Major < 100 && v2.Minor < 10 && v2.Patch < 100)
+	f1, f2 := Format(vU8("f1")&1), Format(vU8("f2")&1)
+	a, _ := DefaultFormatter(nil, v2, f2)
+	alone := string(a)
+	first, err1 := DefaultFormatter(nil, v1, f1)
+	snap := string(first)
+	second, err2 := DefaultFormatter(first, v2, f2)
+	vAssert("no-error", err1 == nil && err2 == nil)
+	vAssert("earlier-text-kept-and-new-text-appended", string(second) == snap+alone)
+	vAssert("earlier-result-untouched", string(first) == snap)
+}
